@@ -36,7 +36,9 @@ CHECKS = {
                 'step raise; cell text is literal - for EVERY grid of cells free of tab / LF / CR (quotes, commas, spaces, any other byte) '
                 'both line readers return that grid cell for cell (file_grid_literal / text_grid_literal), and the reader '
                 'configuration the model stands for (tab delimiter, QUOTE_NONE, splitlines / newline=\'\') is an obligation on '
-                'the arguments the translator reads out of import_string / import_file on every run. WHICH parent a cell gets '
+                'the arguments the translator reads out of import_string / import_file on every run. Conversely every cell '
+                'either reader produces is free of tab / LF / CR for every byte string, so read.write.read = read '
+                '(C02_cells_are_free_of_separators, C02_read_write_read). WHICH parent a cell gets '
                 '(the cell above on the same spine path) is decided by comparing the whole tree of kernpy with '
                 'the model and with an independent reference spine-path model on every spine-operator layout up to depth 3 '
                 '(exhaustive), literal cells and surplus rows, through kp.loads AND through kp.load of a real file.',
